@@ -6,7 +6,15 @@
 //	tags <module>                               => GoField:kind:jsonname[,omitempty];…   (reflection on the wire type)
 //	file.new <module> <hex | none>              => ok|err <rules>      (real temp file + fsnotify; thorough tier)
 //	file.write <hex> | file.remove | file.rename => <rules>            (after a bounded wait for the watcher)
+//	file.truncwrite <hex>                       => <rules>   (os.WriteFile: O_TRUNC, then the bytes)
+//	file.rename                                 => <rules>   (renamed away; the watcher clears and starts its re-watch retries)
+//	file.recreate <hex>                         => <rules>   (a complete new file at the path while the retries are pending)
+//	file.giveup                                 => <rules>   (nothing re-appears: the six retries run out, the source closes)
+//	file.replace <hex>                          => <rules>   (temp file + rename over the path, as editors / config tools do)
 //	file.close
+//
+// The watcher's one-second pauses between re-watch attempts go through util.Sleep; the interpreter installs a gated
+// clock so that it decides when a pause ends (no real waiting, deterministic interleaving).
 //
 // module ∈ flow | system | cb | isolation | hotspot.  Strings are printed as s<hex>, floats as bit patterns,
 // the rule list is sorted.
@@ -31,6 +39,7 @@ import (
 	"github.com/alibaba/sentinel-golang/core/system"
 	"github.com/alibaba/sentinel-golang/ext/datasource"
 	"github.com/alibaba/sentinel-golang/ext/datasource/file"
+	"github.com/alibaba/sentinel-golang/util"
 	"verifharness/internal/vh"
 )
 
@@ -44,6 +53,52 @@ type Interp struct {
 	count *int64
 	// the watcher goroutine stops looking after a removal
 	removed bool
+	// the watcher goroutine sits in its re-watch retry loop
+	rewatching bool
+	clk        *gateClock
+}
+
+// gateClock is the real clock except for Sleep: a sleeper announces itself and waits until the harness releases it
+// (bounded: it gives up waiting after 5 s so that a forgotten goroutine cannot hang for ever).
+type gateClock struct {
+	util.RealClock
+	sleeping chan struct{}
+	release  chan struct{}
+}
+
+func newGateClock() *gateClock {
+	return &gateClock{sleeping: make(chan struct{}, 16), release: make(chan struct{})}
+}
+
+func (c *gateClock) Sleep(d time.Duration) {
+	select {
+	case c.sleeping <- struct{}{}:
+	default:
+	}
+	select {
+	case <-c.release:
+	case <-time.After(5 * time.Second):
+	}
+}
+
+// waitSleeping waits (bounded) until some goroutine is inside Sleep.
+func (c *gateClock) waitSleeping(d time.Duration) bool {
+	select {
+	case <-c.sleeping:
+		return true
+	case <-time.After(d):
+		return false
+	}
+}
+
+// releaseOne lets one sleeper go on (bounded).
+func (c *gateClock) releaseOne(d time.Duration) bool {
+	select {
+	case c.release <- struct{}{}:
+		return true
+	case <-time.After(d):
+		return false
+	}
 }
 
 // writeInPlace replaces the file's content without ever making it shorter than a prefix of the new content followed
@@ -95,7 +150,19 @@ func clearAll() {
 
 func (it *Interp) closeFile() {
 	if it.fds != nil {
-		_ = it.fds.Close()
+		if it.rewatching {
+			// the watcher goroutine is inside its retry loop and would never receive from closeChan: let the retries run out
+			// instead (it then closes itself); Close() from here would block for ever
+			for i := 0; i < 7; i++ {
+				if !it.clk.releaseOne(300 * time.Millisecond) {
+					break
+				}
+				it.clk.waitSleeping(300 * time.Millisecond)
+			}
+			it.rewatching = false
+		} else {
+			_ = it.fds.Close()
+		}
 		it.fds = nil
 	}
 	if it.dir != "" {
@@ -106,6 +173,9 @@ func (it *Interp) closeFile() {
 
 func (it *Interp) Reset() {
 	it.closeFile()
+	it.clk = newGateClock()
+	util.SetClock(it.clk)
+	it.rewatching = false
 	clearAll()
 	it.handlers = map[string]datasource.PropertyHandler{}
 }
@@ -260,8 +330,10 @@ func (c counting) Handle(src []byte) error {
 
 // settle waits (bounded) until the handler has been invoked at least once more than `before` and then until
 // no further invocation happens for 40 ms.
-func (it *Interp) settle(before int64, need bool) {
-	deadline := time.Now().Add(3 * time.Second)
+func (it *Interp) settle(before int64, need bool) { it.settleFor(before, need, 3*time.Second) }
+
+func (it *Interp) settleFor(before int64, need bool, bound time.Duration) {
+	deadline := time.Now().Add(bound)
 	if need {
 		for atomic.LoadInt64(it.count) == before && time.Now().Before(deadline) {
 			time.Sleep(2 * time.Millisecond)
@@ -293,11 +365,12 @@ func (it *Interp) Step(t []string, op string) string {
 		return tags(t[1])
 	case "file.new":
 		it.closeFile()
-		dir, err := os.MkdirTemp("", "c18-")
+		// C18_TMP: a per-run parent directory that the check module removes when it exits (a shrunk case may lack its file.close)
+		dir, err := os.MkdirTemp(os.Getenv("C18_TMP"), "c18-")
 		if err != nil {
 			panic(err)
 		}
-		it.dir, it.path, it.fmod, it.removed = dir, filepath.Join(dir, "rules.json"), t[1], false
+		it.dir, it.path, it.fmod, it.removed, it.rewatching = dir, filepath.Join(dir, "rules.json"), t[1], false, false
 		if t[2] != "none" {
 			if err := os.WriteFile(it.path, payload(t[2]), 0o644); err != nil {
 				panic(err)
@@ -328,6 +401,80 @@ func (it *Interp) Step(t []string, op string) string {
 		err := os.Remove(it.path)
 		it.settle(before, err == nil && !it.removed)
 		it.removed = true
+		return rules(it.fmod)
+	case "file.truncwrite":
+		if it.fds == nil {
+			return rules(it.fmod)
+		}
+		before := atomic.LoadInt64(it.count)
+		if err := os.WriteFile(it.path, payload(t[1]), 0o644); err != nil {
+			panic(err)
+		}
+		it.settle(before, !it.removed && !it.rewatching)
+		return rules(it.fmod)
+	case "file.rename":
+		if it.fds == nil || it.removed || it.rewatching {
+			_ = os.Rename(it.path, it.path+".away")
+			return rules(it.fmod)
+		}
+		if err := os.Rename(it.path, it.path+".away"); err != nil {
+			panic(err)
+		}
+		// Rename event: Handle(nil), watcher.Remove, first watcher.Add fails, util.Sleep
+		it.clk.waitSleeping(3 * time.Second)
+		it.rewatching = true
+		return rules(it.fmod)
+	case "file.recreate":
+		if it.fds == nil {
+			return rules(it.fmod)
+		}
+		before := atomic.LoadInt64(it.count)
+		if err := os.WriteFile(it.path, payload(t[1]), 0o644); err != nil {
+			panic(err)
+		}
+		if it.rewatching {
+			it.rewatching = false
+			it.clk.releaseOne(time.Second)
+			it.settleFor(before, true, 1200*time.Millisecond)
+		}
+		return rules(it.fmod)
+	case "file.giveup":
+		if it.fds == nil || !it.rewatching {
+			return rules(it.fmod)
+		}
+		for i := 0; i < 7; i++ {
+			if !it.clk.releaseOne(300 * time.Millisecond) {
+				break
+			}
+			it.clk.waitSleeping(300 * time.Millisecond)
+		}
+		it.rewatching, it.removed = false, true
+		return rules(it.fmod)
+	case "file.replace":
+		if it.fds == nil {
+			return rules(it.fmod)
+		}
+		before := atomic.LoadInt64(it.count)
+		tmp := it.path + ".tmp"
+		if err := os.WriteFile(tmp, payload(t[1]), 0o644); err != nil {
+			panic(err)
+		}
+		if err := os.Rename(tmp, it.path); err != nil {
+			panic(err)
+		}
+		if it.rewatching { // nothing is watched at the moment: the same as a re-creation
+			it.rewatching = false
+			it.clk.releaseOne(time.Second)
+			it.settleFor(before, true, 1200*time.Millisecond)
+		} else if !it.removed {
+			// two handler calls are expected (Chmod => read of the new file, Remove => Handle(nil)); wait for both (bounded)
+			deadline := time.Now().Add(time.Second)
+			for atomic.LoadInt64(it.count) < before+2 && time.Now().Before(deadline) {
+				time.Sleep(2 * time.Millisecond)
+			}
+			it.settle(before, true)
+			it.removed = true // the watched inode is gone: the source closes itself
+		}
 		return rules(it.fmod)
 	case "file.close":
 		it.closeFile()
